@@ -141,3 +141,29 @@ def rich_model(mb: "ModelBuilder", ctcs: bool = True) -> AObj:
             mb.constraint("arith", n(o_("GREATER"), n(o_("ADD"), n("x"), n(1)), n(2))),
         ]
     return mb.model(root, cs)
+
+
+def twin_model(fm: AObj) -> AObj:
+    """Same feature names, different structure (in place): alternative <-> or groups, mandatory <->
+    optional single children. Used to expose state carried from one model to the next when that
+    state is keyed by names (Feature hashes and compares by name)."""
+    seen: set[int] = set()
+    stack = [fm._f["root"]]
+    while stack:
+        f = stack.pop()
+        if id(f) in seen:
+            continue
+        seen.add(id(f))
+        for r in f._f["relations"]:
+            n = len(r._f["children"])
+            lo, hi = r._f["card_min"], r._f["card_max"]
+            if n > 1 and (lo, hi) == (1, 1):
+                r._f["card_max"] = n
+            elif n > 1 and lo == 1 and hi == n:
+                r._f["card_max"] = 1
+            elif n == 1 and (lo, hi) == (1, 1):
+                r._f["card_min"] = 0
+            elif n == 1 and (lo, hi) == (0, 1):
+                r._f["card_min"] = 1
+            stack.extend(r._f["children"])
+    return fm
